@@ -14,6 +14,7 @@ from vp import gen, probe, refmodels as rm
 from vp import defaults
 from vp import reuse
 from vp import forms as argforms
+from vp import corners
 
 RULE = ('Noll indices 1..231 (quick) / 1..1326 (thorough) enumerated completely for the index map; all mode pairs up to '
         'j=45 (quick) / 91 (thorough) plus random pairs up to the bound for the Gram matrix on an exact quadrature; random '
@@ -21,7 +22,7 @@ RULE = ('Noll indices 1..231 (quick) / 1..1326 (thorough) enumerated completely 
         'distinct = distinct (index | pair | mask hash) descriptors; non-trivial = index > 1 or mask with > 2 samples.')
 ASSUMPTIONS = ['the sign of sine modes is not pinned by the property: +sin and -sin are both accepted (per mode)']
 PLAN = {'quick': {'gen': 8}, 'thorough': {'gen': 16, 'tests': 1, 'docs': 1}}
-REQUIRED_BUCKETS = ['defaults', 'reuse', 'forms', 'index', 'value:normalized', 'value:unnormalized', 'gram:diag', 'gram:offdiag', 'coords:even', 'coords:odd',
+REQUIRED_BUCKETS = ['defaults', 'corners', 'reuse', 'forms', 'index', 'value:normalized', 'value:unnormalized', 'gram:diag', 'gram:offdiag', 'coords:even', 'coords:odd',
                     'coords:offcentre', 'support-only', 'coords:shared', 'basis', 'compose:normalized', 'compose:unnormalized', 'theta:undefined-for-m=0', 'coords:narrow-float', 'value:high-order', 'coords:rho>1', 'coords:result-edited', 'zero-outside:overflow', 'coords:theta-only', 'index:type=uint64', 'index:type=int', 'value:index-type', 'coords:undefined-outside-mask', 'basis:weighted-mask']
 REQUIRED_ANCHORS = ['probe:zernike_index', 'anchor:R', 'anchor:zernike', 'anchor:zernike_coordinates']
 REQUIRED_ORACLES = ['index=noll', 'index:bijective', 'mode=textbook', 'R(1)=1', 'gram=I', '|Z|<=1', 'rho=centroid-distance',
@@ -81,6 +82,7 @@ def workload(ctx, lentil):
     defaults.run(ctx, lentil, 'C11', 'index=noll')
     reuse.run(ctx, lentil, 'C11', 'index=noll')
     argforms.run(ctx, lentil, 'C11', 'index=noll')
+    corners.run(ctx, lentil, 'C11', 'index=noll')
     rng = ctx.rng
     Z = zmod()
     jmax = 231 if ctx.tier == 'quick' else 1326
